@@ -19,6 +19,14 @@ Inductive status := SUCCESS | EXISTS | NO_MEM | NOT_FOUND | BAD_ARG.
 Definition alloc (o : list bool) : bool * list bool :=
   match o with [] => (true, []) | b :: o' => (b, o') end.
 
+(* Fibonacci numbers: an AVL tree of height h has at least fib (h+2) - 1 nodes, i.e.
+   h <= log_phi (n+2) - 0.33 ~ 1.44 log2 (n+2) *)
+Fixpoint fib (n : nat) : nat :=
+  match n with
+  | O => O
+  | S m => match m with O => 1%nat | S k => (fib k + fib m)%nat end
+  end.
+
 Section Spec.
 Variable rank : elt -> Z.
 
